@@ -65,7 +65,7 @@ def run(tier):
     # 2. recovery script from every reachable quiescent state, on the breaker the real
     #    balancer builds from every configuration the real validator accepts
     cfgset = "CfgAll" if thorough else "CfgQuick"
-    r = bc.tlc_with_cfg("MCBreaker", bc.gen_cfg_text([1], cfgset, False), "gen.cfg", workers=1, timeout=900)
+    r = bc.tlc_with_cfg("MCBreaker", bc.gen_cfg_text([1], cfgset, False), "gen.cfg", workers=8, timeout=900)
     scripts, nstates = recovery_scripts(r, "rec")
     tp = bc.replay(binp, scripts, sd, "rec", timeout=1200)
     chk.cov["traces_validated_against_impl"] += len(scripts)
